@@ -256,12 +256,45 @@ func factsOnEdge(bb *ssa.BasicBlock, si int) []edgeFact {
 	if !ok {
 		return nil
 	}
-	c, neg := stripNot(iff.Cond)
-	val := si == 0
+	return condAtoms(iff.Cond, si == 0, 0)
+}
+
+// condAtoms: the atomic facts implied by cond having the given outcome. A
+// negation flips the outcome; a boolean phi that go/ssa built for `a && b`
+// (constant false on the edge from a's block) yields the atoms of both when
+// the outcome is true, one built for `a || b` those of both negations when it
+// is false; in the other two cases only the phi itself is known.
+func condAtoms(cond ssa.Value, outcome bool, depth int) []edgeFact {
+	c, neg := stripNot(cond)
 	if neg {
-		val = !val
+		outcome = !outcome
 	}
-	return []edgeFact{{c, val}}
+	out := []edgeFact{{c, outcome}}
+	phi, ok := c.(*ssa.Phi)
+	if !ok || len(phi.Edges) != 2 || depth > 4 {
+		return out
+	}
+	for i, e := range phi.Edges {
+		k, isK := boolConst(e)
+		if !isK {
+			continue
+		}
+		p := phi.Block().Preds[i]
+		piff, ok := p.Instrs[len(p.Instrs)-1].(*ssa.If)
+		if !ok {
+			continue
+		}
+		other := phi.Edges[1-i]
+		if !k && outcome {
+			out = append(out, condAtoms(piff.Cond, true, depth+1)...)
+			out = append(out, condAtoms(other, true, depth+1)...)
+		}
+		if k && !outcome {
+			out = append(out, condAtoms(piff.Cond, false, depth+1)...)
+			out = append(out, condAtoms(other, false, depth+1)...)
+		}
+	}
+	return out
 }
 
 // dominatingFacts collects every atomic boolean fact that holds whenever
